@@ -1,19 +1,20 @@
 /-
-Lemmas.SevmCallHsto — the storage cells at mapping / dynamic-array locations of Model.SevmCalls (`hsto`, `hSelect`, `hIte`) against
-the flat storage of the reference, cell level:
-  * `hLoc`: the concrete location of `m[key]` for the mapping at `base`: Keccak-256 of key ‖ base; of `a[i]` for the
-    dynamic array at `base`: Keccak-256 of base, plus i;
-  * `hFlat`: the flat storage (account, slot) ↦ value that a chain of writes describes over empty storage;
-  * `HNoColl`: the assumption under which a mapping cell is a storage slot of its own — no other cell written on
-    the path lies at the location read (Keccak-256 collision freedom on the keys met; an assumption, as `ShaOK`);
-  * `hIte_ok`, `hSelect_ok` (load after stores): what `SolidityStorage.load` returns — `Exec.select` through the store
-    chain, with the emptiness condition of the empty array — denotes the value the flat storage holds at the
-    location; `hSelect_store`: the value just stored is read back, a store elsewhere is not seen;
-  * `hLoc_term`: under `ShaInterp`, the location term `f_sha3_512(key ‖ base)` denotes `hLoc`.
-PARTIAL: these are the cell-level facts; the simulation of the frame-stack machine (Lemmas.SevmCallStep, C01.sound_calls
-…) does not cover `Cfg.hsto = true` yet (`hnh` there).
+Lemmas.SevmCallHsto — the location words of storage cells at mapping / dynamic-array locations (Model.SevmCalls
+`decodeSlot`) against the reference's locations (`hLoc`, Lemmas.SevmCallRel):
+  * `ShaInterp`: the valuation interprets `f_sha3_<8n>` as the reference's Keccak-256 (used by SHA3 too);
+  * bytes and numbers: `bytesToNat_natToBytes`, `natToBytes_bytesToNat`, `bytesToNat_append` (round trips of the
+    big-endian encodings of the reference);
+  * `sha512_eval`: under `ShaInterp`, `f_sha3_512(d)` for 64 bytes denotes Keccak-256 of the bytes;
+  * `lookupHash_ok`, `lookupArray_ok`: a literal location that the path conditions name as a hash (`f_sha3_512(k‖b) = loc`,
+    `f_sha3_256(b) = loc − delta`) is `hLoc` of that cell on every valuation that satisfies the path;
+  * `splitKB_ok`: the 512-bit preimage `key ‖ base` split into its halves;
+  * `decodeSlot_ok` (**the location tie**): whatever shape `decodeSlot` accepts — literal, `f_sha3_512(key ‖ base)`,
+    `lit + i`, `i + lit` — the location word denotes `hLoc p kind (key.eval I) base` and the key is a well-formed
+    256-bit term.
+The cell-level facts (`hSelect_ok`, `hFlat_store`, …) and the simulation are in Lemmas.SevmCallStep.
 -/
-import HalmosVerif.Lemmas.SevmCallStep
+import HalmosVerif.Lemmas.SevmCallRel
+import Mathlib.Tactic.Ring
 
 set_option linter.unusedSectionVars false
 set_option linter.unusedSimpArgs false
@@ -21,6 +22,84 @@ set_option linter.unusedVariables false
 
 namespace HalmosVerif.Lemmas.Sevm
 open HalmosVerif.Model HalmosVerif.Model.Sevm HalmosVerif.Spec HalmosVerif.Lemmas.Word
+
+/-! ### helpers -/
+
+section
+variable {I : Interp} {s : Simp}
+
+/-- `uint160(peek(2))` returned the literal `k`: the masked concrete word -/
+theorem reBV160_con (hs : SimpSound s) {v : HV} {n : Nat} (hw : WordRel I v n) {sz k : Nat}
+    (h : reBV s v 160 = .bv sz (.con k)) : k = n % 2 ^ 160 ∧ k < 2 ^ 160 := by
+  cases v with
+  | bv size r =>
+    obtain ⟨r', e, wf, d⟩ := (reBV_bv_ok hs I (by decide : 0 < 160) hw.1).ok_inj
+    rw [h] at e
+    cases e
+    exact ⟨by rw [← hw.2.2, ← d]; rfl, wf.2⟩
+  | bool r =>
+    obtain ⟨r', e, wf, d⟩ := (reBV_bool_ok hs I (by decide : 0 < 160) hw.1).ok_inj
+    rw [h] at e
+    cases e
+    have hk : k = n := by rw [← hw.2.2, ← d]; rfl
+    exact ⟨by rw [← hk]; exact (Nat.mod_eq_of_lt wf.2).symm, wf.2⟩
+
+/-- a word of the callee's calldata -/
+theorem wordOfBytes_rel (hs : SimpSound s) {bs : List T} (hb : ∀ b ∈ bs, b.WF ∧ b.width = 8)
+    (hlen : bs.length = 32) :
+    (s.t (wordOfBytes bs)).WF ∧ (s.t (wordOfBytes bs)).width = 256 ∧
+      (s.t (wordOfBytes bs)).eval I = Evm.bytesToNat (bs.map (·.eval I)) := by
+  have key : (wordOfBytes bs).WF ∧ (wordOfBytes bs).width = 256 ∧
+      (wordOfBytes bs).eval I = Evm.bytesToNat (bs.map (·.eval I)) := by
+    unfold wordOfBytes
+    cases hl : litBytes? bs with
+    | some ns =>
+      obtain ⟨h1, h2⟩ := litBytes_ok (I := I) hl
+      simp only
+      refine ⟨(by decide : 0 < 256), rfl, ?_⟩
+      rw [h2]
+      have := bytesToNat_lt ns
+      rw [h1, hlen] at this
+      exact Nat.mod_eq_of_lt (Nat.lt_of_lt_of_le this (by norm_num))
+    | none =>
+      simp only
+      match bs, hlen, hb with
+      | b :: rest, hlen, hb =>
+        obtain ⟨bwf, bw⟩ := hb b (List.mem_cons_self ..)
+        obtain ⟨h1, h2, h3⟩ := concat_foldl_ok (I := I) rest b bwf (fun x hx => hb x (List.mem_cons_of_mem _ hx))
+        refine ⟨h1, ?_, ?_⟩
+        · simp only [concatBytes, h2, bw]
+          simp only [List.length_cons] at hlen
+          omega
+        · simp only [concatBytes, h3, Evm.bytesToNat, List.map_cons, List.foldl_cons]
+          have hlt := T.eval_lt I b bwf
+          rw [bw] at hlt
+          rw [Nat.mod_eq_of_lt hlt]; norm_num
+  exact ⟨hs.wfT _ key.1, (hs.widthT _ key.1).trans key.2.1, (hs.evalT I _ key.1).trans key.2.2⟩
+
+theorem MemRel.getD {sm : List T} {cm : List Nat} (h : MemRel I sm cm) (i : Nat) :
+    ((sm[i]?).getD zeroByte).WF ∧ ((sm[i]?).getD zeroByte).width = 8 ∧
+      ((sm[i]?).getD zeroByte).eval I = (cm[i]?).getD 0 := by
+  obtain ⟨hwf, hm⟩ := h
+  subst hm
+  by_cases hi : i < sm.length
+  · have : sm[i]? = some sm[i] := List.getElem?_eq_getElem hi
+    simp only [this, Option.getD_some, List.getElem?_map, Option.map_some]
+    exact ⟨(hwf _ (List.getElem_mem hi)).1, (hwf _ (List.getElem_mem hi)).2, trivial⟩
+  · have : sm[i]? = none := List.getElem?_eq_none (by omega)
+    simp only [this, Option.getD_none, List.getElem?_map, Option.map_none]
+    exact zeroByte_ok I
+
+end
+
+/-- the valuation interprets `f_sha3_<8n>` as the reference's hash of the `n` bytes (`f_sha3_0`: of no bytes), and
+    the model hashes concrete data with the reference's hash -/
+structure ShaInterp (I : Interp) (p : Evm.Params) (cfg : Cfg) : Prop where
+  empty : I.bv "f_sha3_0" 256 % 2 ^ 256 = p.keccak [] % Evm.W
+  app : ∀ bs : List Nat, (∀ b ∈ bs, b < 256) → bs ≠ [] →
+    I.uf1 (shaName (8 * bs.length)) 256 (Evm.bytesToNat bs) % 2 ^ 256 = p.keccak bs % Evm.W
+  conc : ∀ bs : List Nat, (∀ b ∈ bs, b < 256) → cfg.keccak bs % 2 ^ 256 = p.keccak bs % Evm.W
+
 
 /-! ### the location term -/
 
@@ -37,6 +116,494 @@ theorem sha512_eval (hsi : ShaInterp I p cfg) {bs : List Nat} (hb : ∀ b ∈ bs
   have hne0 : ¬ (512 : Nat) = 0 := by decide
   simp only [shaExpr, if_neg hne0, T.eval, hd]
   exact this
+
+end
+
+/-! ### bytes and numbers -/
+
+theorem bytes_foldl_acc (bs : List Nat) (acc : Nat) :
+    bs.foldl (fun acc b => acc * 256 + b % 256) acc = acc * 256 ^ bs.length + Evm.bytesToNat bs := by
+  induction bs generalizing acc with
+  | nil => simp [Evm.bytesToNat]
+  | cons b bs ih =>
+    unfold Evm.bytesToNat
+    simp only [List.foldl_cons, List.length_cons]
+    rw [ih, ih (0 * 256 + b % 256)]
+    ring
+
+theorem bytesToNat_cons (b : Nat) (bs : List Nat) :
+    Evm.bytesToNat (b :: bs) = b % 256 * 256 ^ bs.length + Evm.bytesToNat bs := by
+  unfold Evm.bytesToNat
+  simp only [List.foldl_cons]
+  rw [bytes_foldl_acc]; simp [Evm.bytesToNat]
+
+theorem bytesToNat_append (xs ys : List Nat) :
+    Evm.bytesToNat (xs ++ ys) = Evm.bytesToNat xs * 256 ^ ys.length + Evm.bytesToNat ys := by
+  unfold Evm.bytesToNat
+  rw [List.foldl_append, bytes_foldl_acc]; rfl
+
+theorem natToBytes_succ (n v : Nat) :
+    Evm.natToBytes (n + 1) v = (v / 2 ^ (8 * n) % 256) :: Evm.natToBytes n v := by
+  unfold Evm.natToBytes
+  rw [List.range_succ_eq_map]
+  simp only [List.map_cons, List.map_map]
+  congr 1
+  apply List.map_congr_left
+  intro i hi
+  have : i < n := List.mem_range.1 hi
+  simp only [Function.comp]
+  congr 3
+  omega
+
+theorem natToBytes_length (n v : Nat) : (Evm.natToBytes n v).length = n := by simp [Evm.natToBytes]
+
+theorem natToBytes_lt (n v : Nat) : ∀ b ∈ Evm.natToBytes n v, b < 256 := by
+  intro b hb
+  unfold Evm.natToBytes at hb
+  obtain ⟨i, _, rfl⟩ := List.mem_map.1 hb
+  exact Nat.mod_lt _ (by norm_num)
+
+theorem bytesToNat_natToBytes (n v : Nat) : Evm.bytesToNat (Evm.natToBytes n v) = v % 256 ^ n := by
+  induction n with
+  | zero => simp [Evm.natToBytes, Evm.bytesToNat, Nat.mod_one]
+  | succ n ih =>
+    rw [natToBytes_succ, bytesToNat_cons, natToBytes_length, ih, Nat.mod_mod]
+    have h8 : 2 ^ (8 * n) = 256 ^ n := by rw [pow_mul]; norm_num
+    rw [h8, pow_succ, Nat.mod_mul, Nat.add_comm, Nat.mul_comm]
+
+theorem bytesToNat_inj : ∀ {xs ys : List Nat}, xs.length = ys.length → (∀ b ∈ xs, b < 256) → (∀ b ∈ ys, b < 256) →
+    Evm.bytesToNat xs = Evm.bytesToNat ys → xs = ys
+  | [], [], _, _, _, _ => rfl
+  | [], _ :: _, h, _, _, _ => by simp at h
+  | _ :: _, [], h, _, _, _ => by simp at h
+  | x :: xs, y :: ys, hl, hx, hy, he => by
+    have hl' : xs.length = ys.length := by simpa using hl
+    rw [bytesToNat_cons, bytesToNat_cons, hl'] at he
+    have h1 := bytesToNat_lt xs
+    have h2 := bytesToNat_lt ys
+    rw [hl'] at h1
+    have hx0 : x % 256 = x := Nat.mod_eq_of_lt (hx x (List.mem_cons_self ..))
+    have hy0 : y % 256 = y := Nat.mod_eq_of_lt (hy y (List.mem_cons_self ..))
+    rw [hx0, hy0] at he
+    have hpos : 0 < 256 ^ ys.length := Nat.pow_pos (by norm_num)
+    have hxy : x = y := by
+      have e1 : (x * 256 ^ ys.length + Evm.bytesToNat xs) / 256 ^ ys.length = x := by
+        rw [Nat.add_comm, Nat.add_mul_div_right _ _ hpos, Nat.div_eq_of_lt h1, Nat.zero_add]
+      have e2 : (y * 256 ^ ys.length + Evm.bytesToNat ys) / 256 ^ ys.length = y := by
+        rw [Nat.add_comm, Nat.add_mul_div_right _ _ hpos, Nat.div_eq_of_lt h2, Nat.zero_add]
+      rw [← e1, ← e2, he]
+    subst hxy
+    have : Evm.bytesToNat xs = Evm.bytesToNat ys := by omega
+    rw [bytesToNat_inj hl' (fun b hb => hx b (List.mem_cons_of_mem _ hb)) (fun b hb => hy b (List.mem_cons_of_mem _ hb)) this]
+
+/-- the bytes of the value of a byte string are the byte string -/
+theorem natToBytes_bytesToNat {xs : List Nat} (hx : ∀ b ∈ xs, b < 256) :
+    Evm.natToBytes xs.length (Evm.bytesToNat xs) = xs := by
+  apply bytesToNat_inj (natToBytes_length _ _) (natToBytes_lt _ _) hx
+  rw [bytesToNat_natToBytes]
+  exact Nat.mod_eq_of_lt (bytesToNat_lt xs)
+
+/-! ### the locations the model decodes are the locations of the cells -/
+
+section
+variable {I : Interp} {p : Evm.Params} {cfg : Cfg}
+
+theorem offsetDelta_ok {d loc delta : Nat} (h : offsetDelta d loc = some delta) : loc = d + delta ∧ delta < 2 ^ 17 := by
+  unfold offsetDelta at h
+  have hd := Nat.div_add_mod d (2 ^ 16)
+  have hl := Nat.div_add_mod loc (2 ^ 16)
+  have h1 : d % 2 ^ 16 < 2 ^ 16 := Nat.mod_lt _ (by norm_num)
+  have h2 : loc % 2 ^ 16 < 2 ^ 16 := Nat.mod_lt _ (by norm_num)
+  split at h
+  · rename_i he
+    split at h
+    · rename_i hle
+      simp only [Option.some.injEq] at h
+      subst h
+      constructor
+      · rw [he] at hl; omega
+      · omega
+    · cases h
+  · split at h
+    · rename_i he
+      simp only [Option.some.injEq] at h
+      subst h
+      constructor
+      · rw [he] at hl
+        have : 2 ^ 16 * (d / 2 ^ 16 + 1) = 2 ^ 16 * (d / 2 ^ 16) + 2 ^ 16 := by ring
+        omega
+      · omega
+    · cases h
+
+/-- a hash of a plain slot registered on the path: the literal is Keccak-256 of the 32 bytes of the slot -/
+theorem lookupArray_ok (hsi : ShaInterp I p cfg) {path : List B} (hsat : Sat I path) {loc b delta : Nat}
+    (h : lookupArray path loc = some (b, delta)) (hloc : loc < 2 ^ 256) :
+    b < 2 ^ 64 ∧ loc = p.keccak (Evm.natToBytes 32 b) % Evm.W + delta ∧ delta < 2 ^ 17 := by
+  unfold lookupArray at h
+  obtain ⟨c, hc, hf⟩ := List.exists_of_findSome?_eq_some h
+  split at hf
+  · rename_i n b' d
+    split at hf
+    · rename_i hcond
+      obtain ⟨hn, hb'⟩ := hcond
+      cases hod : offsetDelta d loc with
+      | none => rw [hod] at hf; cases hf
+      | some dl =>
+        rw [hod] at hf
+        simp only [Option.map_some, Option.some.injEq, Prod.mk.injEq] at hf
+        obtain ⟨rfl, rfl⟩ := hf
+        obtain ⟨hl, hdl⟩ := offsetDelta_ok hod
+        have hce := hsat _ hc
+        simp only [B.eval, CmpOp.eval, T.eval, beq_iff_eq] at hce
+        have happ := hsi.app (Evm.natToBytes 32 b') (natToBytes_lt _ _)
+          (by intro e; have := natToBytes_length 32 b'; rw [e] at this; cases this)
+        rw [natToBytes_length, bytesToNat_natToBytes] at happ
+        have hb256 : b' % 256 ^ 32 = b' := Nat.mod_eq_of_lt (lt_of_lt_of_le hb' (by norm_num))
+        have hb2 : b' % 2 ^ 256 = b' := Nat.mod_eq_of_lt (lt_of_lt_of_le hb' (by norm_num))
+        rw [hb256] at happ
+        rw [hb2, hn] at hce
+        have hdlt : d < 2 ^ 256 := by omega
+        rw [Nat.mod_eq_of_lt hdlt] at hce
+        have : (8 * 32 : Nat) = 256 := by norm_num
+        rw [this] at happ
+        refine ⟨hb', ?_, hdl⟩
+        rw [← happ, hce]; exact hl
+    · cases hf
+  · cases hf
+
+/-- a mapping-cell hash of concrete key and base registered on the path -/
+theorem lookupHash_ok (hsi : ShaInterp I p cfg) {path : List B} (hsat : Sat I path) {loc b : Nat} {k : T}
+    (h : lookupHash path loc = some (b, k)) (hloc : loc < 2 ^ 256) :
+    ∃ key, k = .lit 256 key ∧ key < 2 ^ 256 ∧ b < 2 ^ 64 ∧ loc = hLoc p 2 key b := by
+  unfold lookupHash at h
+  obtain ⟨c, hc, hf⟩ := List.exists_of_findSome?_eq_some h
+  split at hf
+  · rename_i n d l
+    split at hf
+    · rename_i hcond
+      obtain ⟨hn, hl, hb⟩ := hcond
+      simp only [Option.some.injEq, Prod.mk.injEq] at hf
+      obtain ⟨rfl, rfl⟩ := hf
+      refine ⟨d / 2 ^ 256 % 2 ^ 256, rfl, Nat.mod_lt _ (by norm_num), hb, ?_⟩
+      have hce := hsat _ hc
+      simp only [B.eval, CmpOp.eval, T.eval, beq_iff_eq] at hce
+      rw [hn, hl, Nat.mod_eq_of_lt hloc] at hce
+      have happ := hsi.app (Evm.natToBytes 64 (d % 2 ^ 512)) (natToBytes_lt _ _)
+        (by intro e; have := natToBytes_length 64 (d % 2 ^ 512); rw [e] at this; cases this)
+      rw [natToBytes_length, bytesToNat_natToBytes] at happ
+      have h512 : (256 : Nat) ^ 64 = 2 ^ 512 := by rw [show (256 : Nat) = 2 ^ 8 from rfl, ← pow_mul]
+      rw [h512, Nat.mod_mod] at happ
+      have : (8 * 64 : Nat) = 512 := by norm_num
+      rw [this, hce] at happ
+      -- the 64 bytes are the 32 bytes of the key and the 32 bytes of the base
+      have hsplit : Evm.natToBytes 64 (d % 2 ^ 512) =
+          Evm.natToBytes 32 (d / 2 ^ 256 % 2 ^ 256) ++ Evm.natToBytes 32 (d % 2 ^ 256) := by
+        apply bytesToNat_inj
+        · simp [natToBytes_length]
+        · exact natToBytes_lt _ _
+        · intro x hx
+          rcases List.mem_append.1 hx with hx | hx <;> exact natToBytes_lt _ _ x hx
+        · rw [bytesToNat_append, bytesToNat_natToBytes, bytesToNat_natToBytes, bytesToNat_natToBytes,
+            natToBytes_length]
+          have h256 : (256 : Nat) ^ 32 = 2 ^ 256 := by norm_num
+          rw [h512, h256, Nat.mod_mod, Nat.mod_mod, Nat.mod_mod]
+          have : (2 : Nat) ^ 512 = 2 ^ 256 * 2 ^ 256 := by rw [← pow_add]
+          rw [this, Nat.mod_mul]
+          ring
+      unfold hLoc
+      rw [if_pos rfl, ← hsplit]
+      exact happ
+    · cases hf
+  · cases hf
+
+theorem flatConcat_leaf (t : T) (h : ∀ a b, t ≠ .concat a b) : flatConcat t = [t] := by
+  cases t <;> first | rfl | exact absurd rfl (h _ _)
+
+/-- a concatenation of bytes denotes the value of the byte string -/
+theorem flatConcat_eval (t : T) (hwf : t.WF) (h8 : ∀ l ∈ flatConcat t, l.width = 8) :
+    (∀ l ∈ flatConcat t, l.WF) ∧ t.width = 8 * (flatConcat t).length ∧
+      t.eval I = Evm.bytesToNat ((flatConcat t).map (·.eval I)) := by
+  by_cases h : ∃ a b, t = .concat a b
+  · obtain ⟨a, b, hab⟩ := h
+    have hfl : flatConcat t = flatConcat a ++ flatConcat b := by rw [hab]; rfl
+    have hwf' : a.WF ∧ b.WF := by rw [hab] at hwf; exact hwf
+    rw [hfl] at h8
+    obtain ⟨a1, a2, a3⟩ := flatConcat_eval a hwf'.1 (fun l hl => h8 l (List.mem_append_left _ hl))
+    obtain ⟨b1, b2, b3⟩ := flatConcat_eval b hwf'.2 (fun l hl => h8 l (List.mem_append_right _ hl))
+    rw [hfl]
+    subst hab
+    refine ⟨fun l hl => ?_, ?_, ?_⟩
+    · rcases List.mem_append.1 hl with hl | hl
+      · exact a1 l hl
+      · exact b1 l hl
+    · simp only [T.width, a2, b2, List.length_append]; ring
+    · simp only [T.eval, a3, b3, b2, List.map_append, bytesToNat_append, List.length_map]
+      rw [pow_mul]; norm_num
+  · have hl := flatConcat_leaf t (fun a b e => h ⟨a, b, e⟩)
+    rw [hl] at h8 ⊢
+    have hw : t.width = 8 := h8 t (List.mem_singleton.2 rfl)
+    refine ⟨fun l hl' => by rw [List.mem_singleton.1 hl']; exact hwf, by rw [hw]; rfl, ?_⟩
+    simp only [List.map_cons, List.map_nil, bytesToNat_cons, List.length_nil, pow_zero, Nat.mul_one]
+    have := T.eval_lt I t hwf
+    rw [hw] at this
+    simp [Evm.bytesToNat, Nat.mod_eq_of_lt this]
+termination_by sizeOf t
+decreasing_by
+  all_goals first | (simp_wf; rw [hab]; simp; omega) | (simp_wf; rw [hab]; simp)
+
+theorem flatConcat_length_pos (t : T) : 0 < (flatConcat t).length := by
+  by_cases h : ∃ a b, t = .concat a b
+  · obtain ⟨a, b, hab⟩ := h
+    have := flatConcat_length_pos a
+    rw [hab]
+    show 0 < (flatConcat a ++ flatConcat b).length
+    rw [List.length_append]; omega
+  · rw [flatConcat_leaf t (fun a b e => h ⟨a, b, e⟩)]; simp
+termination_by sizeOf t
+decreasing_by all_goals first | (simp_wf; rw [hab]; simp; omega) | (simp_wf; rw [hab]; simp)
+
+/-- the two halves of the hashed data of a mapping location: the hash term denotes `hLoc` of the decoded cell -/
+theorem splitKB_ok {s : Simp} (hs : SimpSound s) (hsi : ShaInterp I p cfg) {data : T} (hdwf : data.WF) {b : Nat} {k : T}
+    (h : splitKB s data = some (b, k)) :
+    k.WF ∧ k.width = 256 ∧ I.uf1 (shaName 512) 256 (data.eval I) % 2 ^ 256 = hLoc p 2 (k.eval I) b := by
+  unfold splitKB at h
+  simp only at h
+  split at h
+  · rename_i hc
+    obtain ⟨hlen, hall⟩ := hc
+    have h8 : ∀ l ∈ flatConcat data, l.width = 8 := by
+      intro l hl
+      have := List.all_eq_true.1 hall l hl
+      simpa using this
+    obtain ⟨lwf, _, hev⟩ := flatConcat_eval (I := I) data hdwf h8
+    cases hlb : litBytes? ((flatConcat data).drop 32) with
+    | none => rw [hlb] at h; cases h
+    | some ns =>
+      rw [hlb] at h
+      simp only at h
+      split at h
+      · rename_i hb64
+        simp only [Option.some.injEq, Prod.mk.injEq] at h
+        obtain ⟨rfl, rfl⟩ := h
+        have htake : ∀ x ∈ (flatConcat data).take 32, x.WF ∧ x.width = 8 :=
+          fun x hx => ⟨lwf x (List.mem_of_mem_take hx), h8 x (List.mem_of_mem_take hx)⟩
+        have htl : ((flatConcat data).take 32).length = 32 := by rw [List.length_take, hlen]; rfl
+        obtain ⟨k1, k2, k3⟩ := wordOfBytes_rel (I := I) hs htake htl
+        refine ⟨k1, k2, ?_⟩
+        -- the 64 bytes
+        have hbs : ∀ x ∈ (flatConcat data).map (·.eval I), x < 256 := by
+          intro x hx
+          obtain ⟨l, hl, rfl⟩ := List.mem_map.1 hx
+          have := T.eval_lt I l (lwf l hl)
+          rw [h8 l hl] at this; exact this
+        have hbl : ((flatConcat data).map (·.eval I)).length = 64 := by rw [List.length_map, hlen]
+        have happ := hsi.app _ hbs (by intro e; rw [e] at hbl; cases hbl)
+        rw [hbl, ← hev] at happ
+        have : (8 * 64 : Nat) = 512 := by norm_num
+        rw [this] at happ
+        rw [happ]
+        unfold hLoc
+        rw [if_pos rfl]
+        congr 2
+        have hsplit : (flatConcat data).map (·.eval I) =
+            ((flatConcat data).take 32).map (·.eval I) ++ ((flatConcat data).drop 32).map (·.eval I) := by
+          rw [← List.map_append, List.take_append_drop]
+        rw [hsplit, k3]
+        have hdrop := litBytes_mod (I := I) hlb
+        have hl1 : (((flatConcat data).take 32).map (·.eval I)).length = 32 := by rw [List.length_map, htl]
+        have hl2 : (ns.map (· % 256)).length = 32 := by
+          rw [← hdrop, List.length_map, List.length_drop, hlen]
+        congr 1
+        · have := natToBytes_bytesToNat (xs := ((flatConcat data).take 32).map (·.eval I))
+            (fun x hx => hbs x (by rw [hsplit]; exact List.mem_append_left _ hx))
+          rw [hl1] at this; exact this.symm
+        · rw [hdrop]
+          have := natToBytes_bytesToNat (xs := ns.map (· % 256)) (mod256_lt ns)
+          rw [hl2] at this; exact this.symm
+      · cases h
+  · -- two words
+    split at h
+    · rename_i k' b' hleaves
+      split at h
+      · rename_i hc
+        simp only [Option.some.injEq, Prod.mk.injEq] at h
+        obtain ⟨rfl, rfl⟩ := h
+        -- the data is the concatenation of the two leaves
+        have hdata : data = .concat k' (.lit 256 b') := by
+          by_cases hcc : ∃ a c, data = .concat a c
+          · obtain ⟨a, c, rfl⟩ := hcc
+            have hfl : flatConcat a ++ flatConcat c = [k', .lit 256 b'] := hleaves
+            have ha := flatConcat_length_pos a
+            have hc' := flatConcat_length_pos c
+            have hlen : (flatConcat a).length + (flatConcat c).length = 2 := by
+              rw [← List.length_append, hfl]; rfl
+            have ha1 : (flatConcat a).length = 1 := by omega
+            have hc1 : (flatConcat c).length = 1 := by omega
+            obtain ⟨x, hx⟩ := List.length_eq_one_iff.1 ha1
+            obtain ⟨y, hy⟩ := List.length_eq_one_iff.1 hc1
+            rw [hx, hy] at hfl
+            simp only [List.cons_append, List.nil_append, List.cons.injEq, and_true] at hfl
+            obtain ⟨hxk, hyb⟩ := hfl
+            have hax : a = x := by
+              by_cases h2 : ∃ a1 a2, a = .concat a1 a2
+              · obtain ⟨a1, a2, rfl⟩ := h2
+                have : (flatConcat a1 ++ flatConcat a2).length = 1 := ha1
+                have p1 := flatConcat_length_pos a1
+                have p2 := flatConcat_length_pos a2
+                rw [List.length_append] at this; omega
+              · rw [flatConcat_leaf a (fun a1 a2 e => h2 ⟨a1, a2, e⟩)] at hx
+                exact (List.cons.inj hx).1
+            have hcy : c = y := by
+              by_cases h2 : ∃ a1 a2, c = .concat a1 a2
+              · obtain ⟨a1, a2, rfl⟩ := h2
+                have : (flatConcat a1 ++ flatConcat a2).length = 1 := hc1
+                have p1 := flatConcat_length_pos a1
+                have p2 := flatConcat_length_pos a2
+                rw [List.length_append] at this; omega
+              · rw [flatConcat_leaf c (fun a1 a2 e => h2 ⟨a1, a2, e⟩)] at hy
+                exact (List.cons.inj hy).1
+            rw [hax, hcy, hxk, hyb]
+          · rw [flatConcat_leaf data (fun a c e => hcc ⟨a, c, e⟩)] at hleaves
+            simp at hleaves
+        subst hdata
+        obtain ⟨hkw, hb64⟩ := hc
+        have hkwf : k'.WF := hdwf.1
+        refine ⟨hkwf, hkw, ?_⟩
+        have hklt : k'.eval I < 2 ^ 256 := by have := T.eval_lt I k' hkwf; rw [hkw] at this; exact this
+        have hblt : b' < 2 ^ 256 := lt_of_lt_of_le hb64 (by norm_num)
+        have happ := hsi.app (Evm.natToBytes 32 (k'.eval I) ++ Evm.natToBytes 32 b')
+          (fun x hx => by rcases List.mem_append.1 hx with hx | hx <;> exact natToBytes_lt _ _ x hx)
+          (by intro e; have := congrArg List.length e; simp [natToBytes_length] at this)
+        have hl64 : (Evm.natToBytes 32 (k'.eval I) ++ Evm.natToBytes 32 b').length = 64 := by
+          simp [natToBytes_length]
+        rw [hl64, bytesToNat_append, bytesToNat_natToBytes, bytesToNat_natToBytes, natToBytes_length] at happ
+        have h256 : (256 : Nat) ^ 32 = 2 ^ 256 := by norm_num
+        rw [h256, Nat.mod_eq_of_lt hklt, Nat.mod_eq_of_lt hblt] at happ
+        have : (8 * 64 : Nat) = 512 := by norm_num
+        rw [this] at happ
+        simp only [T.eval, T.width, Nat.mod_eq_of_lt hblt]
+        rw [happ]
+        unfold hLoc
+        rw [if_pos rfl]
+      · cases h
+    · cases h
+
+/-- **the location tie.** Under `ShaInterp`, on a satisfied path, the location word the model decodes as the cell
+    `(kind, base, key)` denotes `hLoc` of that cell, and the key is a well-formed 256-bit term -/
+theorem decodeSlot_ok {s : Simp} (hs : SimpSound s) (hsi : ShaInterp I p cfg) {path : List B} (hsat : Sat I path)
+    {kv : HV} {n : Nat} (hw : WordRel I kv n) {kind base : Nat} {key : T}
+    (h : decodeSlot s path kv = some (kind, base, key)) :
+    key.WF ∧ key.width = 256 ∧ n = hLoc p kind (key.eval I) base := by
+  obtain ⟨r, er, wf, d⟩ := (toBV256_ok hs I hw.1 hw.2.1).ok_inj
+  rw [hw.2.2] at d
+  unfold decodeSlot at h
+  rw [er] at h
+  have h256 : (0 : Nat) < 256 := by decide
+  split at h
+  · -- a literal location
+    rename_i sz loc heq
+    simp only [HV.bv.injEq] at heq
+    obtain ⟨rfl, rfl⟩ := heq
+    have hloc : loc < 2 ^ 256 := wf.2
+    have hn : n = loc := d.symm
+    split at h
+    · cases h
+    · cases hlh : lookupHash path loc with
+      | some bk =>
+        obtain ⟨b, k⟩ := bk
+        rw [hlh] at h
+        simp only [Option.some.injEq, Prod.mk.injEq] at h
+        obtain ⟨rfl, rfl, rfl⟩ := h
+        obtain ⟨key', rfl, hk, _, hl⟩ := lookupHash_ok hsi hsat hlh hloc
+        refine ⟨h256, rfl, ?_⟩
+        simp only [T.eval, Nat.mod_eq_of_lt hk]
+        rw [hn]; exact hl
+      | none =>
+        rw [hlh] at h
+        simp only at h
+        cases hla : lookupArray path loc with
+        | none => rw [hla] at h; cases h
+        | some bd =>
+          obtain ⟨b, delta⟩ := bd
+          obtain ⟨_, hl, hdl⟩ := lookupArray_ok hsi hsat hla hloc
+          rw [hla] at h
+          cases delta with
+          | zero =>
+            simp only [Option.some.injEq, Prod.mk.injEq] at h
+            obtain ⟨rfl, rfl, rfl⟩ := h
+            refine ⟨h256, rfl, ?_⟩
+            unfold hLoc
+            simp only [T.eval, Nat.zero_mod, Nat.add_zero]
+            rw [if_neg (by decide), hn, hl, Nat.add_zero]
+          | succ dl =>
+            simp only [Option.some.injEq, Prod.mk.injEq] at h
+            obtain ⟨rfl, rfl, rfl⟩ := h
+            refine ⟨⟨h256, h256, rfl⟩, rfl, ?_⟩
+            have hdl' : (dl + 1) % 2 ^ 256 = dl + 1 := Nat.mod_eq_of_lt (lt_trans hdl (by norm_num))
+            unfold hLoc
+            simp only [arrKey, T.eval, BinOp.eval, T.width, Nat.zero_mod, Nat.zero_add, hdl', Nat.mod_mod]
+            rw [if_neg (by decide), hn]
+            have hdw : (dl + 1) % Evm.W = dl + 1 := hdl'
+            rw [Nat.add_mod, hdw, ← hl]; exact (Nat.mod_eq_of_lt hloc).symm
+  · -- the term `f_sha3_512(data)`
+    rename_i sz nm data heq
+    simp only [HV.bv.injEq, Rep.sym.injEq] at heq
+    obtain ⟨rfl, rfl⟩ := heq
+    obtain ⟨_, twf, _⟩ := wf
+    split at h
+    · rename_i hnm
+      cases hsk : splitKB s data with
+      | none => rw [hsk] at h; cases h
+      | some bk =>
+        obtain ⟨b, k⟩ := bk
+        rw [hsk] at h
+        simp only [Option.map_some, Option.some.injEq, Prod.mk.injEq] at h
+        obtain ⟨rfl, rfl, rfl⟩ := h
+        obtain ⟨k1, k2, k3⟩ := splitKB_ok hs hsi twf.2 hsk
+        refine ⟨k1, k2, ?_⟩
+        rw [← k3, ← d, hnm]; rfl
+    · cases h
+  · -- `d + i`
+    rename_i dd i heq
+    simp only [HV.bv.injEq] at heq
+    obtain ⟨_, rfl⟩ := heq
+    obtain ⟨_, twf, tw⟩ := wf
+    obtain ⟨_, iwf, hwi⟩ := twf
+    have hiw : i.width = 256 := hwi.symm
+    split at h
+    · rename_i b hla
+      simp only [Option.some.injEq, Prod.mk.injEq] at h
+      obtain ⟨rfl, rfl, rfl⟩ := h
+      obtain ⟨_, hl, _⟩ := lookupArray_ok hsi hsat hla (Nat.mod_lt _ (by norm_num))
+      refine ⟨⟨h256, iwf, hiw.symm⟩, rfl, ?_⟩
+      have hil : i.eval I < 2 ^ 256 := by have := T.eval_lt I i iwf; rw [hiw] at this; exact this
+      unfold hLoc
+      simp only [HV.denote, arrKey, T.eval, BinOp.eval, T.width, Nat.zero_mod, Nat.zero_add, Nat.mod_eq_of_lt hil] at d ⊢
+      rw [if_neg (by decide), ← d, hl, Nat.add_zero]
+      show (_ % Evm.W + i.eval I) % Evm.W = _
+      rw [Nat.mod_add_mod]
+    · cases h
+  · -- `i + d`
+    rename_i i dd _ heq
+    simp only [HV.bv.injEq] at heq
+    obtain ⟨_, rfl⟩ := heq
+    obtain ⟨_, twf, tw⟩ := wf
+    obtain ⟨iwf, _, hwi⟩ := twf
+    have hiw : i.width = 256 := by simpa [T.width] using tw
+    split at h
+    · rename_i b hla
+      simp only [Option.some.injEq, Prod.mk.injEq] at h
+      obtain ⟨rfl, rfl, rfl⟩ := h
+      obtain ⟨_, hl, _⟩ := lookupArray_ok hsi hsat hla (Nat.mod_lt _ (by norm_num))
+      refine ⟨⟨h256, iwf, hiw.symm⟩, rfl, ?_⟩
+      have hil : i.eval I < 2 ^ 256 := by have := T.eval_lt I i iwf; rw [hiw] at this; exact this
+      unfold hLoc
+      simp only [HV.denote, arrKey, T.eval, BinOp.eval, T.width, hiw, Nat.zero_mod, Nat.zero_add, Nat.mod_eq_of_lt hil] at d ⊢
+      rw [if_neg (by decide), ← d, hl, Nat.add_zero]
+      show (i.eval I + _ % Evm.W) % Evm.W = _
+      rw [Nat.add_mod_mod, Nat.add_comm]
+    · cases h
+  · cases h
 
 end
 end HalmosVerif.Lemmas.Sevm
